@@ -25,7 +25,10 @@ P == Progs[p]
 Stmts == P.blocks[b].stmts
 AtExit == i = Len(Stmts) + 1
 
-Range1(k) == IF k = "bool" THEN 0..1 ELSE IF k = "arr" THEN {<<UNW, UNW, UNW, UNW>>} ELSE IF k = "arr1" THEN {<<UNW>>} ELSE (-B)..B
+(* C15: references start unassigned (UND), regions empty, "heap" = allocator bookkeeping (last component of the state) *)
+Range1(k) == IF k = "bool" THEN 0..1 ELSE IF k = "arr" THEN {<<UNW, UNW, UNW, UNW>>} ELSE IF k = "arr1" THEN {<<UNW>>}
+             ELSE IF k = "ref" THEN {UND} ELSE IF k \in {"rgn", "brgn", "rrgn", "urgn"} THEN {EmptyRegion}
+             ELSE IF k = "heap" THEN {EmptyHeap} ELSE (-B)..B
 RECURSIVE BoxN(_, _)
 BoxN(kinds, n) == IF n = 0 THEN {<<>>} ELSE {Append(q, v) : q \in BoxN(kinds, n - 1), v \in Range1(kinds[n])}
 Hv(x) == Range1(P.kinds[x])
